@@ -12,6 +12,8 @@ import (
 	"sync/atomic"
 
 	"github.com/antonmedv/expr"
+	"github.com/antonmedv/expr/compiler"
+	"github.com/antonmedv/expr/parser"
 	"github.com/antonmedv/expr/vm"
 
 	"verif/mc/gen"
@@ -101,7 +103,131 @@ func c09Corpus(tier string) []*gen.Expr {
 }
 
 var c09Extra = []string{"F in [5, 1, 3, 1, 4, 2]", `X in ["b", "a", "b", "c"]`, "F not in [2, 2, 1]", `["ab", S matches "a" + "b"]`, `S matches "a" + "b" and "ab" == S`, "Zz + 1", "Zz", "Zq == nil",
-	"PtrOnly()", "PtrOnly() + I", "O.Get() + P.Get()", `{a: 1, b: 2, c: 3}`, `M["zz"]`, `MA["zz"]`, "A[1:2]", "filter(A, {# > 1})", "SA[0:1]", "map(OS, {.Next})", "O?.Next", "AA", "OS[0]"}
+	"PtrOnly()", "PtrOnly() + I", "O.Get() + P.Get()", `{a: 1, b: 2, c: 3}`, `M["zz"]`, `MA["zz"]`, "A[1:2]", "filter(A, {# > 1})", "SA[0:1]", "map(OS, {.Next})", "O?.Next", "AA", "OS[0]",
+	"I %\t(I - I)", "A[7] +\t1", "[\"a\tb\", A[9]]", "\tI % (J - 2)", "map(A, {#\t% (I - 1)})"}
+
+// c09History: explicit enumeration of short HISTORIES of compile operations in one process. The alphabet mixes
+// expr.Compile under several option sets, the configuration-less compile that expr.Eval performs
+// (compiler.Compile(tree, nil)) and expr.Eval itself. The outcome of an operation must be the same after
+// every predecessor (pairs; triples in the thorough tier), each history repeated so that pooled or cached
+// state of an earlier operation is met.
+type c09HistOp struct {
+	name string
+	run  func() string
+}
+
+func c09HistOps() []c09HistOp {
+	var ops []c09HistOp
+	full := henv.MakeFull(henv.Val{})
+	envs := map[string]interface{}{"struct": *full, "map": henv.AsMap(full)}
+	cfgs := []c09Config{}
+	for _, c := range c09Configs() {
+		switch c.name {
+		case "struct", "map", "operators", "map+operators+undef", "shared-option-values+undef", "asint":
+			cfgs = append(cfgs, c)
+		}
+	}
+	for _, src := range []string{"I + 1", "Zz", "O.N", "I in [1, 2, 3]", `S matches "a"`, "Id(I) + J", "M.a", "map(A, {# + I})"} {
+		src := src
+		for _, c := range cfgs {
+			c := c
+			ops = append(ops, c09HistOp{"Compile[" + c.name + "] " + src, func() string {
+				p, err := lib.Compile(src, c.mode, c.ops()...)
+				if err != nil {
+					return "error"
+				}
+				return progKey(p)
+			}})
+		}
+		ops = append(ops, c09HistOp{"compiler.Compile(tree, nil) " + src, func() (out string) {
+			defer func() {
+				if r := recover(); r != nil {
+					out = fmt.Sprint("PANIC ", r)
+				}
+			}()
+			tree, err := parser.Parse(src)
+			if err != nil {
+				return "error"
+			}
+			p, err := compiler.Compile(tree, nil)
+			if err != nil {
+				return "error"
+			}
+			return progKey(p)
+		}})
+		for _, k := range []string{"struct", "map"} {
+			k := k
+			ops = append(ops, c09HistOp{"Eval[" + k + "] " + src, func() (out string) {
+				defer func() {
+					if r := recover(); r != nil {
+						out = fmt.Sprint("PANIC ", r)
+					}
+				}()
+				v, err := expr.Eval(src, envs[k])
+				if err != nil {
+					return "error"
+				}
+				return henv.Norm(v)
+			}})
+		}
+	}
+	return ops
+}
+
+func c09History(r *report.Run) int64 {
+	ops := c09HistOps()
+	var n int64
+	base := make([]string, len(ops))
+	for i, o := range ops {
+		base[i] = o.run()
+		n++
+	}
+	check := func(hist []int) bool {
+		last := hist[len(hist)-1]
+		for rep := 0; rep < 3; rep++ {
+			for _, i := range hist[:len(hist)-1] {
+				ops[i].run()
+				n++
+			}
+			out := ops[last].run()
+			n++
+			if out != base[last] {
+				var names []string
+				for _, i := range hist {
+					names = append(names, ops[i].name)
+				}
+				r.Report(report.Violation{Sub: "history", Kind: "outcome-depends-on-earlier-operations", Witness: strings.Join(names[len(names)-2:], " ; "), Order: int64(1)<<41 + int64(last),
+					Detail: map[string]interface{}{"history": names, "alone_first": trunc(base[last]), "after_history": trunc(out)}})
+				return false
+			}
+		}
+		return true
+	}
+	for a := range ops {
+		for b := range ops {
+			if !check([]int{a, b}) {
+				break
+			}
+		}
+	}
+	if r.Tier == "thorough" {
+		for a := range ops {
+			for b := range ops {
+				if a%3 != 0 && b%3 != 0 {
+					continue // triples: every operation as last, predecessors thinned to keep the product tractable
+				}
+				for c := range ops {
+					if !check([]int{a, b, c}) {
+						break
+					}
+				}
+			}
+		}
+	}
+	r.Set("history_operations", len(ops))
+	r.Set("history_compiles", n)
+	return n
+}
 
 func init() { checks["C09"] = c09 }
 
@@ -146,6 +272,7 @@ func c09(r *report.Run) {
 	}
 	cfgs := c09Configs()
 	var compiles, runs int64
+	compiles += c09History(r)
 	hashes := make([]string, len(srcs)) // for the cross-process comparison
 	distinct := map[uint64]bool{}
 	var mu sync.Mutex
